@@ -31,6 +31,7 @@ type Program struct {
 	LoadErrs  []string
 	FileErrs  map[string]string // contract file -> error (file skipped)
 	roMemo    map[*ssa.Function]int
+	NoAssume  map[string]bool
 }
 
 func goEnv() []string {
